@@ -77,9 +77,23 @@ ARCH = [
                   {"df": {"cols": _cols(2, "n")}, "body": {"text_color": "red"}, "headers": "default"},
                   {"df": {"cols": _cols(1, "o")}, "body": {}, "headers": "none"}],
      "title": {"text": ["@T0"]}},
+    # 9 / 10: tables closed by a table-rendered footnote; 9 has no page border_last, 10 the default 'double'.
+    #         In the pairs (9,10) / (10,9) both documents use the SAME RTFFootnote object (case field share='footnote')
+    {"kind": "table", "page": {"nrow": 40, "border_last": ""}, "sections": [{"df": {"cols": _cols(2, "f")}, "body": {}, "headers": "default"}],
+     "footnote": {"text": ["@F0"], "as_table": True}},
+    {"kind": "table", "page": {"nrow": 3}, "sections": [{"df": {"cols": _cols(4, "g")}, "body": {}, "headers": "default"}],
+     "footnote": {"text": ["@F0"], "as_table": True}},
+    # 11 / 12: two font sizes measured in alternation (texts fit one line at 9 pt, need two at 14 pt; one extra line moves
+    #          the page break) next to a document that measures at 14 pt only: stale measuring state shows as a page shift
+    {"kind": "table", "page": {"nrow": 7},
+     "sections": [{"df": {"cols": [{"name": "@N0", "dtype": "str", "values": [f"r{i}c0 alpha be gamma de eps zeta eta th iota" for i in range(6)]},
+                                   {"name": "@N1", "dtype": "str", "values": [f"r{i}c1" for i in range(6)]}]},
+                   "body": {"text_font_size": [9, 14]}, "headers": [{"text": ["@H0.0", "@H0.1"]}]}]},
+    {"kind": "table", "sections": [{"df": {"cols": _cols(2, "h")}, "body": {"text_font_size": 14}, "headers": "default"}]},
 ]
+SHARED = {(9, 10): "footnote", (10, 9): "footnote"}
 QUICK_FULL = [(0, 1), (1, 0), (0, 2), (2, 0), (3, 0), (0, 3)]                      # quick: every call boundary
-QUICK_STRIDE = [(2, 4), (4, 2), (5, 6), (6, 5), (4, 7), (7, 4), (7, 7), (2, 8), (8, 2)]   # quick: every 3rd call boundary (thorough: every one)
+QUICK_STRIDE = [(2, 4), (4, 2), (5, 6), (6, 5), (4, 7), (7, 4), (7, 7), (2, 8), (8, 2), (9, 10), (10, 9), (11, 12), (12, 11)]   # quick: every 3rd call boundary (thorough: every one)
 QUICK_PAIRS = QUICK_FULL + QUICK_STRIDE
 
 
@@ -106,7 +120,10 @@ def enumerate_cases(tier):
     for a, b in pairs:
         step = 3 if (tier == "quick" and (a, b) in QUICK_STRIDE) else 1
         for k in range(1, call_count(a) + 1, step):
-            yield {"docs": [a, b], "preempt": [[0, k]], "lines": False}
+            c = {"docs": [a, b], "preempt": [[0, k]], "lines": False}
+            if (a, b) in SHARED:
+                c["share"] = SHARED[(a, b)]
+            yield c
     if tier == "thorough":
         for a, b in QUICK_PAIRS:
             for k in range(1, call_count(a, True) + 1):
@@ -123,7 +140,10 @@ def _sched(draw):
     for _ in range(k):
         tid = draw(st.integers(0, n - 1))
         pre.append([tid, draw(st.integers(1, max(2, call_count(docs[tid], lines))))])
-    return {"docs": docs, "preempt": sorted(pre), "lines": lines}
+    c = {"docs": docs, "preempt": sorted(pre), "lines": lines}
+    if tuple(docs) in SHARED:
+        c["share"] = SHARED[tuple(docs)]
+    return c
 
 
 def strategy(tier):
@@ -137,7 +157,15 @@ def budget(tier):
 def check(case) -> Result:
     res = Result()
     idx = case["docs"]
-    docs = [fresh(i) for i in idx]
+    if case.get("share") == "footnote":
+        # both documents are built around one and the same RTFFootnote OBJECT
+        import rtflite as rtf
+        kws = [R.build_kwargs(ARCH[i])[0] for i in idx]
+        for kw in kws[1:]:
+            kw["rtf_footnote"] = kws[0]["rtf_footnote"]
+        docs = [rtf.RTFDocument(**kw) for kw in kws]
+    else:
+        docs = [fresh(i) for i in idx]
     exp = [expected(i) for i in idx]
     out, cnt, fired, hung = run_schedule([d.rtf_encode for d in docs], case["preempt"], lines=case.get("lines", False))
     if hung:
